@@ -7,6 +7,8 @@ import (
 	"go/token"
 	"go/types"
 	"strings"
+
+	"golang.org/x/tools/go/packages"
 )
 
 // fctx: translation state of one function.
@@ -125,6 +127,9 @@ func (c *fctx) expr(e ast.Expr) string {
 		bad("identifier %s at %s", t.Name, c.site(e.Pos()))
 	case *ast.SelectorExpr:
 		if sel, ok := c.info.Selections[t]; ok && sel.Kind() == types.FieldVal {
+			if c.x.fieldKind(sel.Type()) == kOther {
+				bad("field %s of unsupported type %s", t.Sel.Name, sel.Type().String())
+			}
 			return c.expr(t.X) + "." + leanIdent(t.Sel.Name)
 		}
 		if v, ok := c.info.Uses[t.Sel].(*types.Var); ok {
@@ -178,8 +183,72 @@ func (c *fctx) pkgVar(v *types.Var, pos token.Pos) string {
 	case "net.IPv4zero":
 		return "(Go.netIPv4 0 0 0 0)"
 	}
+	if n, ok := c.x.gseen[v]; ok {
+		return n
+	}
+	for _, p := range c.x.pkgs {
+		if p.Types != v.Pkg() {
+			continue
+		}
+		for _, f := range p.Syntax {
+			for _, d := range f.Decls {
+				gd, ok := d.(*ast.GenDecl)
+				if !ok || gd.Tok != token.VAR {
+					continue
+				}
+				for _, sp := range gd.Specs {
+					vs := sp.(*ast.ValueSpec)
+					for i, id := range vs.Names {
+						if p.TypesInfo.Defs[id] != v || i >= len(vs.Values) || len(vs.Names) != len(vs.Values) {
+							continue
+						}
+						if c.x.reassigned(p, v) {
+							bad("package variable %s is assigned to", v.Name())
+						}
+						gc := &fctx{x: c.x, fi: &FuncInfo{pkg: p}, info: p.TypesInfo, names: map[*types.Var]string{}, used: map[string]int{}}
+						val := gc.expr(vs.Values[i])
+						if failing(val) {
+							bad("initialiser of %s may panic", v.Name())
+						}
+						name := p.Name + ".var_" + v.Name()
+						c.x.gseen[v] = "Gen." + name
+						c.x.globals = append(c.x.globals, fmt.Sprintf("/-- package variable `%s.%s` (never assigned to) -/\ndef %s : %s := %s\n\n",
+							p.Name, v.Name(), name, c.x.leanType(v.Type(), false), val))
+						return "Gen." + name
+					}
+				}
+			}
+		}
+	}
 	bad("package variable %s.%s at %s", v.Pkg().Path(), v.Name(), c.site(pos))
 	return ""
+}
+
+// reassigned: is the package-level variable v ever the target of an assignment in its package?
+func (x *X) reassigned(p *packages.Package, v *types.Var) bool {
+	found := false
+	for _, f := range p.Syntax {
+		ast.Inspect(f, func(n ast.Node) bool {
+			switch n := n.(type) {
+			case *ast.AssignStmt:
+				for _, l := range n.Lhs {
+					if rootVar(p.TypesInfo, l) == v {
+						found = true
+					}
+				}
+			case *ast.IncDecStmt:
+				if rootVar(p.TypesInfo, n.X) == v {
+					found = true
+				}
+			case *ast.UnaryExpr:
+				if n.Op == token.AND && rootVar(p.TypesInfo, n.X) == v {
+					found = true
+				}
+			}
+			return true
+		})
+	}
+	return found
 }
 
 func (c *fctx) sliceExpr(t *ast.SliceExpr) string {
